@@ -172,6 +172,9 @@ class World:
                     return self.module_global(interp, target, name)
                 except _NameErr:
                     pass
+                except PyExc as e:
+                    if e.obj.cls.name != 'NameError':
+                        raise
         if name in self.builtins:
             return self.builtins[name]
         if name in BUILTIN_CLASSES:
